@@ -17,6 +17,7 @@ fn main() {
     // subcommands run on the main thread with the ordinary 8 MiB stack.
     match sub {
         "run" => run::main(&rest),
+        "gcsched" => run::gcsched_main(&rest),
         "c05" => c05::main(&rest),
         "c13" => c13::main(&rest),
         "c15" => c15::main(&rest),
